@@ -691,7 +691,7 @@ PyObject* py_surf(PyObject* self, PyObject* args) {
     float threshold;
     int max_points;
     if (!PyArg_ParseTuple(args,"Oiiifi", &array, &nr_octaves, &nr_intervals, &initial_step_size, &threshold, &max_points)) return NULL;
-    if (!PyArray_Check(array) ||
+    if (!numpy::are_arrays(array) ||
         PyArray_NDIM(array) != 2 ||
         PyArray_TYPE(array) != NPY_DOUBLE) {
         PyErr_SetString(PyExc_RuntimeError, TypeErrorMsg);
